@@ -245,6 +245,4 @@ def _h(hist):
 
 
 def replay(path):
-    d = json.load(open(path))
-    print(json.dumps(d["violations"][:3], indent=1)[:4000])
-    return 1
+    return C.generic_replay(path)
